@@ -8,6 +8,7 @@ called twice with the same int seed while the global numpy / python / torch gene
 Validity: direct probe of every public generator of numqi.random on every admissible argument combination.
 """
 import os
+import json
 import math
 import random
 import itertools
@@ -298,9 +299,17 @@ def recipes(quick):
         add(q + 'rand_pauli', f'is_hermitian={ih}', lambda s, ih=ih: R.rand_pauli(3, is_hermitian=ih, seed=s))
     # ---- simulator
     psi = np.arange(1, 33, dtype=np.float64) + 1j * np.arange(32, 0, -1)
-    psi = psi / np.linalg.norm(psi)
+    psi = share('psi', psi / np.linalg.norm(psi))
     for idx in ((0,), (1, 3), (0, 2, 4)):
         add('numqi.sim.state.measure_quantum_vector', f'index={idx}', lambda s, idx=idx: numqi.sim.state.measure_quantum_vector(psi, idx, seed=s))
+    # dtype / layout variants of the state (the same array object is measured in both runs)
+    psi_real = share('psi_real', np.sqrt(np.arange(1, 17, dtype=np.float64) / 136.0))
+    psi_c64 = share('psi_c64', (psi[:16] / np.linalg.norm(psi[:16])).astype(np.complex64))
+    big = np.zeros(32, dtype=np.complex128); big[::2] = psi[:16] / np.linalg.norm(psi[:16])
+    share('psi_strided_base', big)
+    psi_view = big[::2]
+    for nm, arr in (('float64', psi_real), ('complex64', psi_c64), ('strided-view', psi_view)):
+        add('numqi.sim.state.measure_quantum_vector', f'q0 {nm},index=(1,2)', lambda s, arr=arr: numqi.sim.state.measure_quantum_vector(arr, (1, 2), seed=s))
     def mg(s):
         g = numqi.sim.circuit.MeasureGate((1, 2), seed=s)
         res = []
@@ -336,7 +345,7 @@ def recipes(quick):
         ketB = np.eye(2, dtype=np.complex128)[[0, 0, 1, 1]]
         return cha._cha_reset_state(ketA, ketB, np.array([0.5, 0.0, 0.5, 0.0]), 1e-7, 0.3, rng)
     add('numqi.entangle.cha._cha_reset_state', 'two dropped', crs)
-    dm_w = _werner(2, 0.9)
+    dm_w = share('dm_w', np.ascontiguousarray(_werner(2, 0.9)))
     mk_chab = lambda: cha.CHABoundaryBagging((2, 2))
     def chab_init(s, m):
         m.solve(dm_w, maxiter=0, num_init_retry=10, seed=s)     # runs _rand_init_state with the generator
@@ -347,7 +356,7 @@ def recipes(quick):
     add('numqi.entangle.cha.AutodiffCHAREE.get_boundary', 'gellmann',
         lambda s, m: m.get_boundary(dm_w, xtol=0.05, converge_tol=1e-6, threshold=1e-5, num_repeat=1, use_tqdm=False, seed=s),
         lambda: cha.AutodiffCHAREE((2, 2), num_state=4, distance_kind='gellmann'))
-    op0 = np.diag([1.0, 0, 0, -1]); op1 = np.array([[0, 0, 0, 1.0], [0, 0, 0, 0], [0, 0, 0, 0], [1, 0, 0, 0]])
+    op0 = share('op0', np.diag([1.0, 0, 0, -1])); op1 = share('op1', np.array([[0, 0, 0, 1.0], [0, 0, 0, 0], [0, 0, 0, 0], [1, 0, 0, 0]]))
     add('numqi.entangle.cha.AutodiffCHAREE.get_numerical_range', 'num_theta=3',
         lambda s, m: m.get_numerical_range(op0, op1, num_theta=3, converge_tol=1e-4, num_repeat=1, use_tqdm=False, seed=s),
         lambda: cha.AutodiffCHAREE((2, 2), num_state=4))
@@ -390,9 +399,9 @@ def extra_recipes():
     import numqi
     I2 = np.eye(2); X = np.array([[0, 1], [1, 0.]]); Y = np.array([[0, -1j], [1j, 0]]); Z = np.diag([1., -1])
     ud = numqi.unique_determine
-    rho = numqi.random.rand_density_matrix(3, seed=1)
-    ops3 = np.stack([I2, X, Z]).astype(np.complex128)
-    ops4 = np.stack([I2, X, Y, Z]).astype(np.complex128)
+    rho = share('rho', numqi.random.rand_density_matrix(3, seed=1))
+    ops3 = share('ops3', np.stack([I2, X, Z]).astype(np.complex128))
+    ops4 = share('ops4', np.stack([I2, X, Y, Z]).astype(np.complex128))
     return [
         ('numqi.utils.get_purification', 'dimR=4', lambda s: numqi.utils.get_purification(rho, dimR=4, seed=s)),
         ('numqi.entangle.pureb_quantum.get_mps_dicke_transform_matrix', 'dim=2,num_qudit=3', lambda s: numqi.entangle.pureb_quantum.get_mps_dicke_transform_matrix(2, 3, seed=s)),
@@ -403,10 +412,30 @@ def extra_recipes():
     ]
 
 
+# entry points outside the anchored files whose *seed forwarding* is nevertheless an obligation (a repaired defect): the program
+# must be closed once the constructor's global torch draw is set aside, and the double run may show no other event
+OBLIGED_EXTRAS = {'numqi.unique_determine._recovery.check_UD_is_UD': ('seedflow:check_UD_is_UD', ('global torch generator state consumed',))}
+
+
+def strip_global(stmts, which):
+    out = []
+    for st in stmts:
+        if st[0] == 'drawGlobal' and st[1] in which:
+            continue
+        if st[0] == 'loop':
+            st = ('loop', st[1], strip_global(st[2], which))
+        elif st[0] == 'branch':
+            st = ('branch', st[1], strip_global(st[2], which), strip_global(st[3], which))
+        out.append(st)
+    return out
+
+
 def extras(ctx):
-    """dynamic double-run of the seeded entry points outside the anchored files; results go to the evidence only"""
+    """dynamic double-run of the seeded entry points outside the anchored files; results go to the evidence only, except for
+    OBLIGED_EXTRAS"""
     tr = get_tr(ctx)
     static = {e.name: tclosed_py(tr, e) for e in tr.order if not e.listed}
+    by_name = {e.name: e for e in tr.order}
     out = {}
     for name, label, f in extra_recipes():
         rec = dict(arguments=label, static_closed_with_callees=static.get(name))
@@ -416,6 +445,22 @@ def extras(ctx):
                 rec.setdefault('runs', []).append(dict(seed=s, bit_identical=bool(ok), events=events))
             except Exception as e:
                 rec.setdefault('runs', []).append(dict(seed=s, raised=f'{type(e).__name__}: {e}'[:200]))
+        if name in OBLIGED_EXTRAS:
+            key, allowed = OBLIGED_EXTRAS[name]
+            e = by_name.get(name)
+            fwd = None
+            if e is not None:
+                fwd = bool(c10_translate.closed_py(len(tr.order), [], strip_global(e.stmts, ('torch',))))
+            rec['seed_forwarded_to_every_callee_static'] = fwd
+            bad = [r for r in rec['runs'] if 'raised' in r or not r['bit_identical'] or [x for x in r['events'] if x not in allowed]]
+            if bad or fwd is not True:
+                r0 = bad[0] if bad else rec['runs'][0]
+                ctx.fail(key, f"{name}({label}, seed={r0['seed']}) does not derive all randomness from its seed: "
+                         f"{r0.get('raised') or [x for x in r0['events'] if x not in allowed] or 'outputs differ'}; static seed forwarding={fwd}",
+                         dict(function=name, arguments=label, seed=r0['seed'], observed=r0, static_seed_forwarding=fwd,
+                              how='call twice with this int seed; a generator created from None during the call is recorded as an event'))
+            else:
+                ctx.probe_ok(('obliged-extra', name))
         runs = rec['runs']
         rec['dynamic_closed'] = all(r.get('bit_identical') and not r.get('events') for r in runs)
         rec['agrees_with_static'] = (rec['dynamic_closed'] == rec['static_closed_with_callees'])
@@ -462,16 +507,35 @@ def size_sweeps():
     return out
 
 
+SHARED = {}     # name -> (array handed to the implementation, pristine copy): the caller's arrays must never be written to
+
+
+def share(name, arr):
+    SHARED[name] = (arr, arr.copy())
+    return arr
+
+
+def mutated_arguments():
+    out = []
+    for name, (arr, ref) in SHARED.items():
+        if arr.shape != ref.shape or arr.dtype != ref.dtype or arr.tobytes() != ref.tobytes():
+            out.append(f'argument array `{name}` was modified in place')
+            arr[...] = ref          # restore, so that one culprit is reported once
+    return out
+
+
 def run_recipe(f, seed, prep=None):
     """two calls with the same seed under different global-generator histories; returns (ok, detail, events)"""
     perturb(2 * seed + 1)
     o1 = prep() if prep else None
     with Recorder() as r1:
         a = f(seed, o1) if prep else f(seed)
+    r1.events += mutated_arguments()
     perturb(5 * seed + 2)
     o2 = prep() if prep else None
     with Recorder() as r2:
         b = f(seed, o2) if prep else f(seed)
+    r2.events += mutated_arguments()
     ca, cb = canon(a), canon(b)
     return ca == cb, (a, b), sorted(set(r1.events + r2.events)), a
 
@@ -748,6 +812,18 @@ def validity_tie(ctx):
                 want.append(';'.join(str(int(x)) for x in np.asarray(out).reshape(-1))); tols.append(None)
 
         guarded('block7', blk7)
+    def blk_f2():
+        for shape in ((1,), (2,), (3,), (2, 2), ()):
+            for nz, no in ((False, False), (True, False), (False, True), (True, True)):
+                if nz and no and int(np.prod(shape)) <= 1:
+                    continue
+                for s in range(ctx.seed * 50, ctx.seed * 50 + (12 if ctx.quick() else 60)):
+                    g = RecGen(s)
+                    out = R.rand_F2(*shape, not_zero=nz, not_one=no, seed=g)
+                    draws = '|'.join(';'.join(str(int(x)) for x in np.asarray(d).reshape(-1)) for _, d in g.log)
+                    ops.append(f'C10 nz f2 {int(nz)} {int(no)} {draws}')
+                    want.append(';'.join(str(int(x)) for x in np.asarray(out).reshape(-1)) + f' {len(g.log)}'); tols.append(None)
+    guarded('rand_F2', blk_f2)
     model = common.run_model(ops)
     worst = 0.0
     for op, w, tol, m in zip(ops, want, tols, model):
@@ -942,9 +1018,16 @@ def validity_checks(ctx):
             ok = np.asarray(r).shape == (2 * n,) and set(np.unique(r).tolist()) <= {0, 1} and np.array_equal((m.T @ J @ m) % 2, J)
             return ok, 'r in F2^{2n}, M symplectic'
         add('rand_Clifford_group', f'n={n}', f)
-    for shape in ((3,), (2, 2), ()):
+    for shape in ((1,), (2,), (3,), (2, 2), ()):
         for nz, no in ((False, False), (True, False), (False, True), (True, True)):
             if nz and no and int(np.prod(shape)) <= 1:
+                def frej(s, shape=shape):
+                    try:
+                        x = R.rand_F2(*shape, not_zero=True, not_one=True, seed=s)
+                    except AssertionError:
+                        return True, 'rejected by the assert'
+                    return False, f'accepted an impossible request and returned {np.asarray(x).tolist()}'
+                add('rand_F2', f'size={shape},not_zero=True,not_one=True (must be rejected)', frej)
                 continue
             def f(s, shape=shape, nz=nz, no=no):
                 x = R.rand_F2(*shape, not_zero=nz, not_one=no, seed=s)
@@ -1024,7 +1107,8 @@ def validity_checks(ctx):
                     e = max(e, abs(x @ b @ U @ x - x @ U.T @ b @ x))
             return B.ndim == 3 and B.shape[1:] == (N0, N0) and U.shape == (N0, N0) and e < 1e-8, f'|x^T B U x - x^T U^T B x|={e:.2e}'
         add('rand_symmetric_inner_product', f'N0={N0}', f)
-    for (no, dq, nq, ns, wi) in ((2, 2, 1, None, False), (3, 2, 1, 2, True), (2, 3, 2, None, True), (2, 2, 2, 2, False)):
+    for (no, dq, nq, ns, wi) in [(no, dq, nq, ns, wi) for (no, dq, nq) in ((2, 2, 1), (3, 2, 1), (2, 3, 2), (2, 2, 2))
+                                 for ns in (None, 1, 2) for wi in (False, True)]:
         def f(s, no=no, dq=dq, nq=nq, ns=ns, wi=wi):
             x = R.rand_orthonormal_matrix_basis(no, dq, num_qudit=nq, num_sample=ns, with_I=wi, seed=s)
             xs = [x] if ns is None else x
@@ -1054,8 +1138,236 @@ def validity_checks(ctx):
     return checks
 
 
+NAMED_ARGS = {
+    '@pauli4': lambda: np.stack([np.eye(2), np.array([[0, 1], [1, 0.]]), np.array([[0, -1j], [1j, 0]]), np.diag([1., -1])]).astype(np.complex128),
+    '@pauli3': lambda: np.stack([np.eye(2), np.array([[0, 1], [1, 0.]]), np.diag([1., -1])]).astype(np.complex128),
+}
+
+
+def corpus_replay(ctx):
+    """regression corpus /verif/corpus/C10/*.json: the recorded witness of every repaired defect, replayed first on every run (both tiers)
+    through the same double-run oracle as the probe"""
+    import glob, importlib
+    n = 0
+    for path in sorted(glob.glob(os.path.join(common.VERIF, 'corpus', 'C10', '*.json'))):
+        tag = os.path.basename(path)
+        try:
+            doc = json.load(open(path))
+        except Exception as e:
+            ctx.fail('corpus:unreadable', f'[corpus {tag}] cannot be read: {e}', dict(corpus=tag)); continue
+        for e in doc['entries']:
+            n += 1
+            key = doc['key']
+            desc = f"{e['function']}(*{e['args']}, **{e['kwargs']}, seed={e['seed']})"
+            replay = dict(corpus=tag, function=e['function'], args=e['args'], kwargs=e['kwargs'], seed=e['seed'],
+                          how='call twice with this int seed; between the calls re-seed and advance np.random, random and torch global generators')
+            try:
+                parts = e['function'].split('.')
+                obj = importlib.import_module(parts[0])
+                for q in parts[1:]:
+                    obj = getattr(obj, q)
+                args = [share(f'corpus{n}:{a}', NAMED_ARGS[a]()) if isinstance(a, str) and a in NAMED_ARGS else a for a in e['args']]
+                ok, (a, b), events, _ = run_recipe(lambda s: obj(*args, **e['kwargs'], seed=s), e['seed'])
+            except Exception as ex:
+                ctx.fail(key, f'[corpus {tag}] {desc} raised {type(ex).__name__}: {ex}'[:400], dict(replay, observed=f'{type(ex).__name__}: {ex}'[:300])); continue
+            finally:
+                for k in [k for k in SHARED if k.startswith(f'corpus{n}:')]:
+                    del SHARED[k]
+            events = [x for x in events if x not in e.get('allowed_events', [])]
+            if not ok:
+                ctx.fail(key, f'[corpus {tag}] {desc} is not reproducible: {describe(a)} vs {describe(b)}', dict(replay, first=describe(a), second=describe(b), events=events))
+            elif events:
+                ctx.fail(key, f'[corpus {tag}] {desc} touches state outside the seed: {events}', dict(replay, events=events))
+            else:
+                ctx.probe_ok(('corpus', tag, n))
+            ctx.count('corpus')
+    ctx.extra['corpus_entries_replayed'] = n
+
+
+def generator_table():
+    """(name, f(n, seed), kind of generator object accepted) for every public generator of numqi.random, one size parameter each"""
+    import numqi
+    R = numqi.random
+    return [
+        ('rand_haar_state', lambda n, s: R.rand_haar_state(n, seed=s), 'np'),
+        ('rand_haar_state[real]', lambda n, s: R.rand_haar_state(n, tag_complex=False, seed=s), 'np'),
+        ('rand_haar_unitary', lambda n, s: R.rand_haar_unitary(n, seed=s), 'np'),
+        ('rand_special_orthogonal_matrix', lambda n, s: R.rand_special_orthogonal_matrix(n, seed=s), 'np'),
+        ('rand_density_matrix', lambda n, s: R.rand_density_matrix(n, seed=s), 'np'),
+        ('rand_density_matrix[bures]', lambda n, s: R.rand_density_matrix(n, kind='bures', seed=s), 'np'),
+        ('rand_kraus_op', lambda n, s: R.rand_kraus_op(2, n, 2, seed=s), 'np'),
+        ('rand_choi_op', lambda n, s: R.rand_choi_op(n, 2, seed=s), 'np'),
+        ('rand_povm', lambda n, s: R.rand_povm(n, 3, seed=s), 'np'),
+        ('rand_bipartite_state', lambda n, s: R.rand_bipartite_state(n, 2, seed=s), 'np'),
+        ('rand_bipartite_state[k=1]', lambda n, s: R.rand_bipartite_state(n, 2, k=1, seed=s), 'np'),
+        ('rand_separable_dm', lambda n, s: R.rand_separable_dm(n, 2, seed=s), 'np'),
+        ('rand_hermitian_matrix', lambda n, s: R.rand_hermitian_matrix(n, seed=s), 'np'),
+        ('rand_channel_matrix_space', lambda n, s: R.rand_channel_matrix_space(n, 2, seed=s), 'np'),
+        ('rand_quantum_channel_matrix_subspace', lambda n, s: R.rand_quantum_channel_matrix_subspace(n, 2, seed=s), 'np'),
+        ('rand_ABk_density_matrix', lambda n, s: R.rand_ABk_density_matrix(2, n, 2, seed=s), 'np'),
+        ('rand_reducible_matrix_subspace', lambda n, s: R.rand_reducible_matrix_subspace(2, (1, int(n)), seed=s), 'np'),
+        ('rand_symmetric_inner_product', lambda n, s: R.rand_symmetric_inner_product(n, seed=s), 'np'),
+        ('rand_orthonormal_matrix_basis', lambda n, s: R.rand_orthonormal_matrix_basis(2, n, seed=s), 'np'),
+        ('rand_adjacent_matrix', lambda n, s: R.rand_adjacent_matrix(n, seed=s), 'np'),
+        ('rand_n_sphere', lambda n, s: R.rand_n_sphere(n, seed=s), 'np'),
+        ('rand_n_ball', lambda n, s: R.rand_n_ball(n, size=2, seed=s), 'np'),
+        ('rand_F2', lambda n, s: R.rand_F2(n, seed=s), 'np'),
+        ('rand_F2[not_zero,not_one]', lambda n, s: R.rand_F2(n, not_zero=True, not_one=True, seed=s), 'np'),
+        ('rand_pauli', lambda n, s: R.rand_pauli(n, seed=s), 'np'),
+        ('rand_pauli[hermitian]', lambda n, s: R.rand_pauli(n, is_hermitian=True, seed=s), 'np'),
+        ('rand_SpF2', lambda n, s: R.rand_SpF2(n, seed=s), 'py'),
+        ('rand_SpF2[int_tuple-matrix]', lambda n, s: R.rand_SpF2(n, return_kind='int_tuple-matrix', seed=s), 'py'),
+        ('rand_Clifford_group', lambda n, s: R.rand_Clifford_group(n, seed=s), 'py'),
+    ]
+
+
+def scribble(x):
+    """overwrite every writeable array reachable from a returned object (a later call must not see it)"""
+    import torch
+    if isinstance(x, np.ndarray):
+        if x.flags.writeable and x.dtype != object:
+            x[...] = 1 if x.dtype == np.uint8 else 7
+    elif isinstance(x, torch.Tensor):
+        with torch.no_grad():
+            x.fill_(7)
+    elif isinstance(x, (list, tuple)):
+        for y in x:
+            scribble(y)
+    elif isinstance(x, dict):
+        for y in x.values():
+            scribble(y)
+    elif hasattr(x, 'F2'):
+        scribble(x.F2)
+
+
+def probe_hardening(ctx):
+    """input classes that need no theory: seed / size dtypes, generator-object histories, returned-object aliasing, repeated and
+    interleaved int-seed calls.  Every statement is an equality between two implementation calls whose equality follows from
+    `result_function_of_seed` (the output is a function of the normalised seed and the arguments only)."""
+    seeds = sorted({0, 1, 3 + ctx.seed, 2 ** 33 + 5 + ctx.seed}) if ctx.quick() else sorted({0, 1, 2 ** 33 + 5} | {3 + ctx.seed * 7 + i for i in range(6)})
+    n0 = 3
+    for name, f, kind in generator_table():
+        def guarded(what, thunk, replay):
+            try:
+                return True, thunk()
+            except Exception as e:
+                ctx.fail(f'robust:{name}', f'numqi.random.{name}: {what} raised {type(e).__name__}: {e}'[:400], dict(replay, observed=f'{type(e).__name__}: {e}'[:300]))
+                return False, None
+        for s in seeds:
+            rp = dict(function='numqi.random.' + name, n=n0, seed=s)
+            ok, ref = guarded(f'n={n0}, seed={s}', lambda: canon(f(n0, s)), rp)
+            if not ok:
+                continue
+            # (2) the seed given as another integer-like type; the size given as a numpy integer
+            variants = [('np.int64', np.int64(s)), ('np.uint64', np.uint64(s)), ('0-d int64 array', np.array(s, dtype=np.int64)), ('float', float(s))]
+            if s < 2 ** 31: variants.append(('np.int32', np.int32(s)))
+            if s in (0, 1): variants += [('bool', bool(s)), ('np.bool_', np.bool_(s))]
+            for tn, sv in variants:
+                ok, got = guarded(f'seed={tn}({s})', lambda: canon(f(n0, sv)), dict(rp, seed_type=tn))
+                if ok and got != ref:
+                    ctx.fail(f'dtype:seed:{name}', f'numqi.random.{name}(n={n0}) with seed={tn}({s}) differs from seed={s} (Python int)', dict(rp, seed_type=tn))
+                elif ok:
+                    ctx.probe_ok(('dtype-seed', name, tn, s))
+            for tn, nv in (('np.int64', np.int64(n0)), ('np.int32', np.int32(n0))):
+                ok, got = guarded(f'n={tn}({n0})', lambda: canon(f(nv, s)), dict(rp, size_type=tn))
+                if ok and got != ref:
+                    ctx.fail(f'dtype:size:{name}', f'numqi.random.{name} with n={tn}({n0}), seed={s} differs from n={n0} (Python int)', dict(rp, size_type=tn))
+                elif ok:
+                    ctx.probe_ok(('dtype-size', name, tn, s))
+            # (1) the returned object is the caller's: overwriting it must not influence a later call
+            def alias():
+                a = f(n0, s); scribble(a)
+                b = f(n0, s); cb = canon(b); scribble(b)
+                return cb
+            ok, got = guarded('repeat after overwriting the returned arrays', alias, rp)
+            if ok and got != ref:
+                ctx.fail(f'alias:returned:{name}', f'numqi.random.{name}(n={n0}, seed={s}): after overwriting the arrays returned by the first call, the same call returns something else (shared/memoised result)', rp)
+            elif ok:
+                ctx.probe_ok(('alias-returned', name, s))
+            # (3) histories with int seeds: another size and another seed in between
+            def hist():
+                f(n0 + 1, s); f(n0, s + 1); f(2, s)
+                return canon(f(n0, s))
+            ok, got = guarded('interleaved sizes/seeds', hist, rp)
+            if ok and got != ref:
+                ctx.fail(f'history:{name}', f'numqi.random.{name}(n={n0}, seed={s}) changes after calls with n={n0 + 1}, seed={s + 1}, n=2 in the same process', dict(rp, history=[[n0 + 1, s], [n0, s + 1], [2, s], [n0, s]]))
+            elif ok:
+                ctx.probe_ok(('history', name, s))
+            # (3) a generator *object*: the first draw equals the int-seed call, the generator is advanced (not copied or re-seeded),
+            #     and a second generator with the same seed reproduces the whole sequence (equality with the int-seed call is only observed)
+            mk = (lambda: np.random.default_rng(s)) if kind == 'np' else (lambda: random.Random(s))
+            state = (lambda g: json.dumps(g.bit_generator.state, sort_keys=True, default=str)) if kind == 'np' else (lambda g: g.getstate())
+            def genhist():
+                g1 = mk(); s0 = state(g1)
+                x1 = canon(f(n0, g1)); s1 = state(g1); x2 = canon(f(n0, g1)); x3 = canon(f(n0 + 1, g1))
+                g2 = mk()
+                y = [canon(f(n0, g2)), canon(f(n0, g2)), canon(f(n0 + 1, g2))]
+                return x1, s0 != s1, [x1, x2, x3] == y
+            ok, got = guarded('generator object passed as seed', genhist, dict(rp, generator=kind))
+            if ok:
+                x1, advanced, same = got
+                if x1 != ref:
+                    # not part of the contract (a function may derive sub-seeds from an int seed): recorded as an observation only
+                    ctx.extra.setdefault('int_seed_differs_from_fresh_generator_with_that_seed', [])
+                    if name not in ctx.extra['int_seed_differs_from_fresh_generator_with_that_seed']:
+                        ctx.extra['int_seed_differs_from_fresh_generator_with_that_seed'].append(name)
+                if not advanced:
+                    ctx.fail(f'history:generator:{name}', f'numqi.random.{name}(n={n0}) does not advance the generator object it is given (seed {s})', dict(rp, generator=kind))
+                elif not same:
+                    ctx.fail(f'history:generator:{name}', f'numqi.random.{name}: two generators seeded {s} driven through the same three calls give different sequences', dict(rp, generator=kind))
+                else:
+                    ctx.probe_ok(('history-generator', name, s))
+            ctx.count('hardening-' + name.split('[')[0])
+    # (4) sizes past machine-word boundaries for the F2 / symplectic generators (validity, not only reproducibility)
+    import numqi
+    R = numqi.random
+    sizes = (31, 32, 33) if ctx.quick() else (16, 31, 32, 33, 63, 64, 65)
+    for n in sizes:
+        J = np.block([[np.zeros((n, n), dtype=np.int64), np.eye(n, dtype=np.int64)], [np.eye(n, dtype=np.int64), np.zeros((n, n), dtype=np.int64)]])
+        base = [int(x) for x in numqi.group.spf2.get_number(n, kind='base')]
+        for s in range(ctx.seed * 10, ctx.seed * 10 + (4 if ctx.quick() else 12)):
+            rp = dict(n=n, seed=s)
+            try:
+                tup, mat = R.rand_SpF2(n, return_kind='int_tuple-matrix', seed=s)
+                m = np.asarray(mat).astype(np.int64)
+                ok = m.shape == (2 * n, 2 * n) and set(np.unique(m).tolist()) <= {0, 1} and np.array_equal((m.T @ J @ m) % 2, J)
+                ok = ok and len(tup) == len(base) and all(0 <= int(t) < b for t, b in zip(tup, base))
+                ok = ok and np.array_equal(np.asarray(R.rand_SpF2(n, seed=s)), np.asarray(mat)) and tuple(R.rand_SpF2(n, return_kind='int_tuple', seed=s)) == tuple(tup)
+                if not ok:
+                    ctx.fail('valid:rand_SpF2', f'numqi.random.rand_SpF2(n={n}, seed={s}) is not a symplectic matrix over F2 consistent with its integer tuple', dict(rp, function='numqi.random.rand_SpF2'))
+                else:
+                    ctx.probe_ok(('boundary', 'rand_SpF2', n, s))
+                r, cm = R.rand_Clifford_group(n, seed=s)
+                cm = np.asarray(cm).astype(np.int64)
+                if not (np.asarray(r).shape == (2 * n,) and set(np.unique(r).tolist()) <= {0, 1} and np.array_equal((cm.T @ J @ cm) % 2, J)):
+                    ctx.fail('valid:rand_Clifford_group', f'numqi.random.rand_Clifford_group(n={n}, seed={s}) is not (F2 vector, symplectic matrix)', dict(rp, function='numqi.random.rand_Clifford_group'))
+                else:
+                    ctx.probe_ok(('boundary', 'rand_Clifford_group', n, s))
+                for ih in (None, True, False):
+                    P = R.rand_pauli(n, is_hermitian=ih, seed=s)
+                    F = np.asarray(P.F2)
+                    herm = (int(F[1]) == int(np.dot(F[2:2 + n].astype(np.int64), F[2 + n:].astype(np.int64)) % 2))
+                    sg = complex(P.sign)
+                    ok = F.shape == (2 * n + 2,) and set(np.unique(F).tolist()) <= {0, 1} and (ih is None or herm == ih) and ((abs(sg.imag) < 1e-12) == herm) and abs(abs(sg) - 1) < 1e-12
+                    if not ok:
+                        ctx.fail('valid:rand_pauli', f'numqi.random.rand_pauli(n={n}, is_hermitian={ih}, seed={s}): F2={F.tolist()} sign={sg} is not a Pauli operator of the requested kind', dict(rp, function='numqi.random.rand_pauli', is_hermitian=ih))
+                    else:
+                        ctx.probe_ok(('boundary', 'rand_pauli', n, ih, s))
+                for nz, no in ((False, False), (True, False), (False, True), (True, True)):
+                    x = R.rand_F2(2 * n, not_zero=nz, not_one=no, seed=s)
+                    if not (x.shape == (2 * n,) and x.dtype == np.uint8 and set(np.unique(x).tolist()) <= {0, 1} and (not nz or x.any()) and (not no or not x.all())):
+                        ctx.fail('valid:rand_F2', f'numqi.random.rand_F2({2 * n}, not_zero={nz}, not_one={no}, seed={s}) = {x.tolist()}', dict(rp, function='numqi.random.rand_F2'))
+                    else:
+                        ctx.probe_ok(('boundary', 'rand_F2', n, nz, no, s))
+            except Exception as e:
+                ctx.fail('robust:boundary', f'F2/symplectic generators at n={n}, seed={s} raised {type(e).__name__}: {e}'[:400], dict(rp, observed=f'{type(e).__name__}: {e}'[:300]))
+            ctx.count('boundary')
+
+
 def probe(ctx):
     import numqi
+    corpus_replay(ctx)
+    probe_hardening(ctx)
     # --- reproducibility: the double-run experiment is the failing-input search
     for r in experiments(ctx):
         key = 'repro:' + r['name'].split('numqi.')[-1]
@@ -1072,8 +1384,10 @@ def probe(ctx):
         ctx.count('repro-' + r['name'].split('.')[-1])
     # --- validity of every generator on every argument combination
     seeds = [ctx.seed * 1000 + i for i in range(3 if ctx.quick() else 25)]
+    many = [ctx.seed * 1000 + i for i in range(48 if ctx.quick() else 200)]       # cheap discrete generators: every option product x many seeds
+    discrete = {'rand_F2', 'rand_pauli', 'rand_adjacent_matrix', 'rand_SpF2', 'rand_Clifford_group'}
     for key, desc, f in validity_checks(ctx):
-        for s in seeds:
+        for s in (many if key in discrete else seeds):
             try:
                 ok, detail = f(s)
             except Exception as e:
